@@ -54,6 +54,7 @@ type frame struct {
 
 type interp struct {
 	p       *Program
+	acc     []string // values collected by main ($acc)
 	out     strings.Builder
 	steps   int
 	res     *Result
@@ -93,6 +94,9 @@ func Run(p *Program) (res *Result, err error) {
 	}()
 	fr := &frame{vars: map[string]any{}, arrs: map[string]*ArrDecl{}}
 	c := in.block(fr, p.Main)
+	if p.Acc && c.kind == cNone {
+		in.out.WriteString(strings.Join(in.acc, ",") + "#")
+	}
 	in.res.Out = in.out.String()
 	in.res.Steps = in.steps
 	switch c.kind {
@@ -162,6 +166,15 @@ func (in *interp) stmt(fr *frame, s Stmt) ctl {
 			fr.vars[x.V.Name] = chk(fr.vars[x.V.Name].(int64) - 1)
 		}
 		in.syncStatic(fr, x.V.Name)
+	case *Collect:
+		v, c := in.eval(fr, x.E)
+		if c.kind != cNone {
+			return c
+		}
+		in.acc = append(in.acc, toStr(v))
+		if len(in.acc) > 4096 {
+			panic(budgetPanic{})
+		}
 	case *Echo:
 		for _, a := range x.Args {
 			v, c := in.eval(fr, a)
